@@ -135,6 +135,9 @@ func (c19Prop) genOne(t *Tape) *c19Case {
 	if nEnv > 0 && t.Draw(6) == 0 {
 		ps.FailDecl = 1 + t.Draw(2)
 	}
+	if nEnv == 0 && t.Draw(4) == 0 {
+		d.Short, d.NoSBU = true, true
+	}
 
 	// command-line tokens
 	argv := []string{"app"}
